@@ -630,6 +630,19 @@ def no_blanks(body):
 def judge(acc, cfg, items, obs, models):
     default = cfg["default"]
     oracle_reqs, pending, k = [], [], 0
+    # wave 7: wherever the harness joins equal-span runs itself (pipelines through the merge-first writers, SRT parts) the
+    # join is checked against the extracted model merge_concurrent on exactly that set
+    jidx = [i for i, (it, o) in enumerate(zip(items, obs))
+            if (it[0] == "F" and it[3]["via"] in ("single", "legacy") and "first" in o) or (it[0] == "E2" and "err" not in o)]
+    jsets = [obs[i]["first"] if items[i][0] == "F" else [[l, [c[:3] for c in cues]] for l, cues in items[i][1]["cs"]] for i in jidx]
+    jmodel = oracle_batch([(1419, wire_mset([[l, [[c[0], c[1], [c[2]]] for c in cues]] for l, cues in js])) for js in jsets])
+    for i, js, jm in zip(jidx, jsets, jmodel):
+        mine = [[l, [[c[0], c[1], c[2]] for c in cues]] for l, cues in merged(js)]
+        theirs = [[l, [[a, b, " ".join(unopt(n) for n in nodes if unopt(n) is not None)] for a, b, nodes in cues]] for l, cues in jm]
+        if mine != theirs:
+            acc.dis(items[i][0], {"config": cfg, "job": items[i][1]}, mine, theirs, "the harness's join of equal-span runs differs from model merge_concurrent")
+        else:
+            acc.count("%s_harness_join_checked_against_model" % items[i][0])
     for (tag, job, reqs, info), o in zip(items, obs):
         m = models[k:k + len(reqs)]
         k += len(reqs)
